@@ -130,8 +130,10 @@ def enumerate_cases(tier, seed):
                     yield {"mode": "realfd", "kind": kind, "form": form, "how": how, "after": after}
     # a real server with a socket timeout and a client that stops reading a large document without closing the connection
     for st_ in ("ThreadingTCPServer", "ForkingTCPServer"):
-        for form in ("gopher", "http"):
+        for form in ("gopher", "http", "gophers", "https"):
             yield {"mode": "stalled", "servertype": st_, "form": form}
+        for form in ("gophers", "https", "gopher"):
+            yield {"mode": "stalled", "servertype": st_, "form": form, "how": "reset"}
     # a protocol list without a catch-all and a request nobody claims: whatever the server answers then (today: nothing)
     for form in ("gopher", "http", "gophers"):
         for err in ERRORS:
@@ -303,11 +305,22 @@ def _check_stalled(case, ctx):
         cp.set("logger", "logmethod", "file")
         with open(conf, "w") as f:
             cp.write(f)
-        srv = live.Server(conf, capture_log=True)
+        srv = live.Server(conf, capture_log=True, capture_err=True)
         base_threads = srv.threads()
+        base_socks = srv.sockets()
         cli = live.connect(srv.port, 20)
         port = cli.getsockname()[1]
+        if clients.FORMS[case["form"]][0]:
+            cli = live.client_ctx().wrap_socket(cli, server_hostname="gopher.example")
         cli.sendall(clients.encode(case["form"], b"/big.bin"))
+        if case.get("how") == "reset":
+            import struct
+            got = 0
+            while got < 70000:
+                got += len(cli.recv(65536) or b"x" * 70000)
+            raw = cli.unwrap() if False else cli
+            raw.setsockopt(socket.SOL_SOCKET, socket.SO_LINGER, struct.pack("ii", 1, 0))
+            raw.close()
         ctx.nontriv(("stalled", case["servertype"], case["form"]))
         ctx.label("stalled-client:" + case["servertype"], "form:" + case["form"])
         ctx.sample(case, cls="stalled")
@@ -361,6 +374,20 @@ def _check_stalled(case, ctx):
             fails.append(Fail("stalled-client:handler-never-ends:%s" % tag,
                               "20 s after the client stopped reading (socket timeout 2 s) its handler is still there: %d child processes, "
                               "%s threads (baseline %s)" % (livec, th, base_threads)))
+        # nothing may leave the connection's thread uncaught
+        # (the handler itself prints a traceback for I/O errors other than EPIPE / ECONNRESET: that is its own diagnostic;
+        # "Exception in thread" is what the interpreter prints for an exception nobody caught)
+        tb = [l for l in srv.errlines if "Exception in thread" in l]
+        if tb:
+            fails.append(Fail("stalled-client:propagated:%s" % tag,
+                              "a failure left the connection handler: the server's standard error shows %r ... %r" % (tb[0], srv.errlines[-1:])))
+        socks = srv.sockets()
+        if socks is not None and base_socks is not None and socks > base_socks:
+            time.sleep(1.0)
+            socks = srv.sockets()
+            if socks > base_socks:
+                fails.append(Fail("stalled-client:connection-left-open:%s" % tag,
+                                  "after the failed connection the server process holds %d socket descriptors (baseline %d)" % (socks, base_socks)))
         try:
             if live.request(srv.port, b"/small.txt\r\n", timeout=8) != b"ok\n":
                 fails.append(Fail("stalled-client:server-impaired:%s" % tag, "after the stalled client the server answers wrongly"))
